@@ -10,3 +10,4 @@ open AC.Props.C01
 #print axioms C01_total_binary
 #print axioms C01_total_heuristic
 #print axioms C01_total_opt
+#print axioms C01_ensemble_wf
